@@ -222,3 +222,94 @@ theorem toTablesSched_eq_toTables (cfg : Cfg κ) (s : Sched) (hs : ValidSched s)
     simp only [Option.map_some]
     congr 1
     exact hfinal k hk bt hl
+
+/-- **toTables_order_independent**: any two valid schedules give the same tables. -/
+theorem toTables_order_independent (cfg : Cfg κ) (s s' : Sched) (hs : ValidSched s) (hs' : ValidSched s')
+    (b : Builder κ (List Bytes) F64.Bits) (hwf : WF b) (hr : RankOK cfg b) :
+    toTablesSched cfg s b = toTablesSched cfg s' b := by
+  rw [toTablesSched_eq_toTables cfg s hs b hwf hr, toTablesSched_eq_toTables cfg s' hs' b hwf hr]
+
+/-- the same for the Builder of any input stream (`WF` is an invariant of `Add`) -/
+theorem toTables_order_independent_stream (cfg : Cfg κ) (s s' : Sched) (hs : ValidSched s) (hs' : ValidSched s')
+    (rs : List (Res κ (List Bytes) F64.Bits)) (hr : RankOK cfg (build rs)) :
+    toTablesSched cfg s (build rs) = toTablesSched cfg s' (build rs) :=
+  toTables_order_independent cfg s s' hs hs' _ (WF_build rs) hr
+
+/-- **render_function_of_tables**: CSV records, CSV warnings and the numbered text footnotes are
+functions of the tables value (and of the key tuples) alone, so they too are the same under every
+schedule. -/
+theorem render_function_of_tables (cfg : Cfg κ) (s s' : Sched) (hs : ValidSched s) (hs' : ValidSched s')
+    (b : Builder κ (List Bytes) F64.Bits) (hwf : WF b) (hr : RankOK cfg b)
+    (tableFields : List Bytes) (colFields : Nat) (tupleT tupleR tupleC : κ → List Bytes) :
+    tablesCSV tableFields colFields tupleT tupleR tupleC (toTablesSched cfg s b) =
+      tablesCSV tableFields colFields tupleT tupleR tupleC (toTablesSched cfg s' b) ∧
+    (toTablesSched cfg s b).map textFootnotes = (toTablesSched cfg s' b).map textFootnotes := by
+  rw [toTables_order_independent cfg s s' hs hs' b hwf hr]
+  exact ⟨rfl, rfl⟩
+
+/-- **line_permutation_cells**: permuting the results of the input (in particular the result
+lines inside a configuration block) leaves the set of cells and every cell's sample MULTISET
+unchanged. Statistics are functions of the sorted sample, so they are unchanged as long as
+sorting identifies the multiset (no mix of +0 and -0 or of NaN payloads in one cell); first-observation
+orders — hence row order, and which column is the baseline when columns are ordered by first
+observation — may change. -/
+theorem line_permutation_cells {ζ ν : Type} [DecidableEq ζ] (rs rs' : List (Res κ ζ ν)) (h : rs.Perm rs') :
+    ∀ t r c, (cellValues (build rs) t r c).Perm (cellValues (build rs') t r c) ∧
+      hasCell (build rs) t r c = hasCell (build rs') t r c := by
+  intro t r c
+  have hm : (measOf rs).Perm (measOf rs') := by
+    unfold measOf; exact List.Perm.flatMap_right _ h
+  have hg : (group (measOf rs) t r c).Perm (group (measOf rs') t r c) := List.Perm.filter _ hm
+  obtain ⟨h1, h2, _, _⟩ := C14.cells_are_groupBy rs
+  obtain ⟨h1', h2', _, _⟩ := C14.cells_are_groupBy rs'
+  refine ⟨?_, ?_⟩
+  · rw [h1, h1']; exact List.Perm.map _ hg
+  · rw [Bool.eq_iff_iff, h2, h2']
+    constructor
+    · intro hne he; rw [he] at hg; exact hne (List.Perm.eq_nil hg)
+    · intro hne he; rw [he] at hg; exact hne (List.Perm.eq_nil hg.symm)
+
+/-! ### caches -/
+
+/-- a cache is sound for `f` when every entry it holds is a value of `f` -/
+def CacheSound {K V : Type} [DecidableEq K] (f : K → V) (cache : List (K × V)) : Prop :=
+  ∀ k v, AL.lookup k cache = some v → v = f k
+
+/-- **caches_are_memo** (`medianCI`, `tidyUnit`): with ANY sound cache state — in particular any
+state reachable from the empty cache by earlier calls, in any order, from any goroutine — a lookup
+returns exactly the value of the function, and leaves the cache sound. -/
+theorem caches_are_memo {K V : Type} [DecidableEq K] (f : K → V) (cache : List (K × V)) (k : K)
+    (h : CacheSound f cache) : (memoGet f cache k).1 = f k ∧ CacheSound f (memoGet f cache k).2 := by
+  unfold memoGet
+  cases hl : AL.lookup k cache with
+  | some v => exact ⟨h k v hl, h⟩
+  | none =>
+    refine ⟨rfl, ?_⟩
+    intro k' v' hl'
+    rw [lookup_upsert] at hl'
+    by_cases hk : k' = k
+    · subst hk; simp at hl'; exact hl'.symm
+    · simp [hk] at hl'; exact h k' v' hl'
+
+theorem cacheSound_empty {K V : Type} [DecidableEq K] (f : K → V) : CacheSound f [] := by
+  intro k v h; simp [AL.lookup] at h
+
+/-- every sequence of calls starting from the empty cache returns the function's values -/
+theorem caches_are_memo_seq {K V : Type} [DecidableEq K] (f : K → V) (calls : List K) (cache : List (K × V))
+    (h : CacheSound f cache) :
+    (calls.foldl (fun (acc : List V × List (K × V)) k =>
+        let r := memoGet f acc.2 k; (acc.1 ++ [r.1], r.2)) ([], cache)).1 = calls.map f := by
+  have : ∀ (pre : List V) (cache : List (K × V)), CacheSound f cache →
+      (calls.foldl (fun (acc : List V × List (K × V)) k =>
+        let r := memoGet f acc.2 k; (acc.1 ++ [r.1], r.2)) (pre, cache)).1 = pre ++ calls.map f := by
+    induction calls with
+    | nil => intro pre cache _; simp
+    | cons k rest ih =>
+      intro pre cache hc
+      obtain ⟨h1, h2⟩ := caches_are_memo f cache k hc
+      simp only [List.foldl_cons, List.map_cons]
+      rw [ih _ _ h2, h1]
+      simp
+  simpa using this [] cache h
+
+end C15
